@@ -1,26 +1,26 @@
-"""Per-property configuration of the check flow."""
+"""Per-property configuration of the check flow: one module per property under /verif/props/Cxx.py,
+each defining CFG (flow configuration) and MANIFEST (level text / note for MANIFEST.json)."""
+import importlib.util
+import os
+
+ROOT = os.path.dirname(os.path.dirname(os.path.abspath(__file__)))
 
 COMMON_TB = [
     "Coq 8.16.1 kernel + coqc (full .vo build through coq_makefile/make); vm_compute for witnesses and for evaluating the model on harness cases; no native_compute, no extraction",
-    "translator /verif/translator/rs2v.py (Rust-subset expression parser -> Gallina) for the items listed under translator_items",
+    "translator /verif/translator (rs2v.py Rust-subset expression parser -> Gallina, plus gen_<ID>.py) for the items listed under translator_items",
     "correspondence harness /verif/harness (generators, canonicalisation, Gallina term printer) and the Python driver /verif/vlib",
 ]
-
 H = "From NV.Common Require Import Base.\n"
 
-PROPS = {
-    "C17": dict(
-        dirs=["Common", "C17"], gen=True,
-        run_targets=["C17/Run.vo"], proof_targets=["C17/Props.vo"], props="C17/Props.v",
-        gen_obligations=["Inst.gen_sup_spec: the regenerated supersedes is the strict lexicographic order on (incarnation, timestamp)"],
-        crate="nvh_c17",
-        header=H + "From NV.C17 Require Import Types Model Run.\nOpen Scope N_scope.",
-        kinds={"trace": ("trace_case", "check_trace"), "conv": ("conv_case", "check_conv"), "global": ("global_case", "check_global")},
-        known_classes={0: "tie-conflict"},
-        rule="seeded op sequences / update sets over 2-4 members with small incarnation and timestamp ranges (ties frequent), run on the real LWWMembershipState and on the Gallina model",
-        trusted_base=COMMON_TB + [
-            "modelled, not verified: HashMap as an association list (iteration order never observed: dumps are taken per member id); u64 arithmetic as unbounded N (clock overflow at 2^64 not modelled); updated_at (wall clock) ignored; GossipMembershipManager's transport/callback layer around LWWMembershipState is outside the model",
-        ],
-        assumptions=["update_local with a caller-chosen incarnation is outside the property's listed events (it can lower an incarnation by construction)"],
-    ),
-}
+PROPS = {}
+MANIFESTS = {}
+_d = os.path.join(ROOT, "props")
+for _f in sorted(os.listdir(_d)):
+    if re_ok := (_f.startswith("C") and _f.endswith(".py")):
+        _spec = importlib.util.spec_from_file_location("nvprops_" + _f[:-3], os.path.join(_d, _f))
+        _m = importlib.util.module_from_spec(_spec)
+        _m.COMMON_TB = COMMON_TB
+        _m.H = H
+        _spec.loader.exec_module(_m)
+        PROPS[_f[:-3]] = _m.CFG
+        MANIFESTS[_f[:-3]] = getattr(_m, "MANIFEST", {})
